@@ -508,6 +508,74 @@ impl<'a, T: Elem> BackendVisitor<T> for Vis<'a> {
     }
 }
 
+/// the lazy window iterator consumed with skips (round 11): `skip(j)`, `step_by(k)` and `nth(j)` advance it
+/// through `nth`, which an adaptor may implement differently from `next` - every item that is delivered is the
+/// callback's result on the window of *its* position
+struct SkipVis<'a> {
+    len: usize,
+    tyname: &'static str,
+    ctx: &'a mut Ctx,
+}
+impl<'a, T: Elem> BackendVisitor<T> for SkipVis<'a> {
+    fn visit<V: Vec1View<T> + SliceRead<T>>(&mut self, name: &str, v: &V) {
+        let len = self.len;
+        let fam = "lazy-iterator-skips";
+        let x: Vec<i64> = (0..len as i64).map(|i| 10 + i).collect();
+        for w in 1..=len + 1 {
+            let mut modes: Vec<(String, Vec<usize>)> = vec![];
+            for j in 1..=len {
+                modes.push((format!("skip({j})"), (j..len).collect()));
+                modes.push((format!("nth({j}) then next"), (j..len).collect()));
+            }
+            for k in [1usize, 2, 3] {
+                modes.push((format!("step_by({k})"), (0..len).step_by(k).collect()));
+            }
+            for (mi, (mname, positions)) in modes.iter().enumerate() {
+                let got: Outcome<Vec<Vec<i64>>> = catch(|| {
+                    let it = v.rolling_custom_iter(w, |s: V::SliceOutput<'_>| V::read_slice(&s).iter().map(num).collect::<Vec<i64>>());
+                    if mname.starts_with("skip") {
+                        it.skip(mi / 2 + 1).collect()
+                    } else if mname.starts_with("nth") {
+                        let mut it = it;
+                        let first = it.nth(mi / 2 + 1);
+                        first.into_iter().chain(it).collect()
+                    } else {
+                        it.step_by(mi + 1 - 2 * len).collect()
+                    }
+                });
+                let want: Vec<Vec<i64>> = positions.iter().map(|&p| x[(p + 1).saturating_sub(w)..=p].to_vec()).collect();
+                self.ctx.traces += 1;
+                self.ctx.transitions += positions.len() as u64;
+                self.ctx.eval(fam, hash_bytes(format!("{got:?}").as_bytes()));
+                self.ctx.nontrivial(fam, hash_bytes(format!("{name}{len}/{w}{mname}{}", self.tyname).as_bytes()));
+                if !matches!(&got, Outcome::Ok(g) if *g == want) {
+                    self.ctx.violation(Violation {
+                        entry: format!("rolling_custom_iter.{}", mname.split('(').next().unwrap_or("")),
+                        finding: None,
+                        size: len * 100 + w,
+                        case: json!({"family": fam, "backend": name, "elem": self.tyname, "len": len, "w": w, "consumption": mname}),
+                        expected: format!("the windows of positions {positions:?}: {}", truncate(&format!("{want:?}"), 200)),
+                        got: truncate(&format!("{got:?}"), 260),
+                    });
+                }
+            }
+        }
+    }
+}
+fn run_skips(len: usize, ctx: &mut Ctx) {
+    let word: Vec<X> = (0..len).map(|i| Some(10.0 + i as f64)).collect();
+    ctx.states += 1;
+    ctx.fam("lazy-iterator-skips").states += 1;
+    {
+        let mut vis = SkipVis { len, tyname: "i32", ctx };
+        for_backends::<i32, _>(&word, 0, &mut vis);
+    }
+    {
+        let mut vis = SkipVis { len, tyname: "Option<f64>", ctx };
+        for_backends_opt(&word, 0, &mut vis);
+    }
+}
+
 fn run_len(len: usize, ctx: &mut Ctx, only: Option<String>) {
     let word: Vec<X> = (0..len).map(|i| Some(10.0 + i as f64)).collect();
     // long series: reduced back-end set (two ring offsets, two strides, two chunkings) and the windows
@@ -677,19 +745,25 @@ fn main() {
             typed::check_word(&syms_from_json(&case["word"]), &mut ctx);
             std::process::exit(finish_replay(&run, &stored, ctx));
         }
+        if case["family"] == "lazy-iterator-skips" {
+            run_skips(case["len"].as_u64().unwrap_or(0) as usize, &mut ctx);
+            std::process::exit(finish_replay(&run, &stored, ctx));
+        }
         run_len(case["len"].as_u64().unwrap_or(0) as usize, &mut ctx, case["backend"].as_str().map(|s| s.to_string()));
         std::process::exit(finish_replay(&run, &stored, ctx));
     }
     let mut lens: Vec<usize> = (0..=max_len).collect();
     lens.extend(if run.quick() { vec![40, 270, 1030] } else { vec![24, 40, 70, 130, 270, 300, 1030, 2600, 4100] });
     let mut total = par_items(&lens, run.threads, |len, ctx| run_len(*len, ctx, None));
+    let skip_lens: Vec<usize> = (1..=run.pick(7, 12)).chain([17, 40]).collect();
+    total.merge(par_items(&skip_lens, run.threads, |len, ctx| run_skips(*len, ctx)));
     let twords = all_words_upto(3, run.pick(4, 6));
     total.merge(par_items(&twords, run.threads, |w, ctx| {
         ctx.states += 1;
         typed::check_word(w, ctx)
     }));
     let meta = Meta {
-        rule: "protocol machine (driver x input back end x output container x out-path x len x w): the stateful callback records (call#, arguments); the recorded trace must conform event by event to the explicit model: len calls, position i gets the new element(s) at i, the element/index at i-w+1 when i>=w-1, 'nothing' when i<min(w,len)-1, unconstrained when w>len and i=len-1; slice forms get exactly x[max(0,i-w+1)..=i]; out[i] = result of call i. Elements 10+i / 100+i are distinct so identity is observable. Non-trivial = distinct (driver, back end, output, path, len, w) runs. Configuration families (DESIGN 5.15, 5.16): every driver writing into caller buffers in non-canonical layouts (wrapped rings, strided / reversed views: path BufAlt); unbounded windows usize::MAX, usize::MAX-1, 2^63+1, 2^63, 2^63-1, 2^32+1 for lengths <= 3. Round 8 (DESIGN 5.17): typed-column-slices - rolling_custom / rolling_custom_iter / rolling_custom_to on the Polars String, Int64, Float32 and Boolean columns under every chunking, every word over {null,1,2}, every window 1..=len+2. Round 9 (DESIGN 5.18): the two-series drivers also run with a second series two elements longer than the first (lengths <= 4): the output has the length of the first series. Round 10 (DESIGN 5.19): the Option<f64> series with every placement of nulls (lengths <= 4): a null is handed to the callback like any other element - as the new one, as the one that leaves, inside a slice.".into(),
+        rule: "protocol machine (driver x input back end x output container x out-path x len x w): the stateful callback records (call#, arguments); the recorded trace must conform event by event to the explicit model: len calls, position i gets the new element(s) at i, the element/index at i-w+1 when i>=w-1, 'nothing' when i<min(w,len)-1, unconstrained when w>len and i=len-1; slice forms get exactly x[max(0,i-w+1)..=i]; out[i] = result of call i. Elements 10+i / 100+i are distinct so identity is observable. Non-trivial = distinct (driver, back end, output, path, len, w) runs. Configuration families (DESIGN 5.15, 5.16): every driver writing into caller buffers in non-canonical layouts (wrapped rings, strided / reversed views: path BufAlt); unbounded windows usize::MAX, usize::MAX-1, 2^63+1, 2^63, 2^63-1, 2^32+1 for lengths <= 3. Round 8 (DESIGN 5.17): typed-column-slices - rolling_custom / rolling_custom_iter / rolling_custom_to on the Polars String, Int64, Float32 and Boolean columns under every chunking, every word over {null,1,2}, every window 1..=len+2. Round 9 (DESIGN 5.18): the two-series drivers also run with a second series two elements longer than the first (lengths <= 4): the output has the length of the first series. Round 10 (DESIGN 5.19): the Option<f64> series with every placement of nulls (lengths <= 4): a null is handed to the callback like any other element - as the new one, as the one that leaves, inside a slice. Round 11 (DESIGN 5.20): lazy-iterator-skips - rolling_custom_iter on every input back end consumed with skip(j), nth(j) then next, step_by(1..3): every delivered item is the callback's result on the window of its own position.".into(),
         bounds: json!({"len": format!("0..={max_len}, and the long lengths {:?} on a reduced back-end set with windows 1, 2, 15..17, 31..33, 127..129, 255..257, len-1..len+3", &lens[max_len + 1..]), "w": "1..=len+3", "drivers": DRIVERS.iter().map(|d| format!("{d:?}")).collect::<Vec<_>>(),
             "input_backends": "Vec, Arc<Vec>, [T;N], VecDeque x 8 head offsets, Array1, ArrayView1 steps {1,2,3,-1,-2}, ArrayViewMut1, Arc<Array1> (elements i32 and Option<f64>), OptIter<Vec<f64>>, OptIter<Array1<f64>>, Float64Chunked/&Float64Chunked under every chunking into <=3 chunks",
             "outputs": "Vec, VecDeque, Array1, Int32Chunked (returned and caller buffer)"}),
